@@ -109,13 +109,13 @@ def run_w1(res, task):
     res.samples.append({'kind': 'w1', 'gate': kind, 'waves': [[0, [1.0, 2.0]]] * a, 'delays': ['i'] * a, 'cap': 8})
 
 
-def simulate(b, nl, plan, caps, stim, shift=0.0, scale=1.0):
+def simulate(b, nl, plan, caps, stim, shift=0.0, scale=1.0, reuse=False):
     c = b.circuit
     ipos, opos, spos = b.s_pos()
     nv = nl.n_in + len(nl.states)
     n, init, tt, fin = W.stim_for(nv)
     delays = wsim.delay_array(len(c.lines), plan) * scale
-    sim = W.make_sim(c, delays, n, caps=caps)
+    sim = W.make_sim(c, delays, n, caps=caps, reuse=reuse)
     tt2 = [(t + np.float32(shift)) * np.float32(scale) for t in tt]
     W.assign(sim, ipos + spos, init, tt2, fin)
     sim.s_to_c()
@@ -174,6 +174,29 @@ def w2_case(res, case, tier):
                 res.violation(key + f'/s5-{j}', case, f'latest stabilisation {lst} after window {w} lane {lane} {nl}'); nviol += 1
         if nviol > 5: break
     if uniform: res.count('w2_monotonic_checked')
+    # the same windows with waveform memory re-used between levels: only ports and state elements stay readable
+    simr, _, _ = simulate(b, nl, case['plan'], case['caps'], case['stim'], reuse=True)
+    for lane in range(n):
+        inw = {}
+        for pos, tl in in_times.items():
+            inw[snodes[pos].index] = (tl[lane][0], tl[lane][-1]) if tl[lane] else None
+        win = wsim.line_window(c, dl, inw)
+        for j, pos in enumerate(opos + spos):
+            node = (b.out_nodes + b.st_nodes)[j]
+            w = win[node.ins[0].index]
+            eat, lst = float(simr.s[4, pos, lane]), float(simr.s[5, pos, lane])
+            if eat < float(TMAX) and (w is None or eat < w[0]):
+                res.violation(key + f'/reuse-s4-{j}', case, f'c_reuse=True: earliest arrival {eat} before window {w} lane {lane} {nl}'); nviol += 1
+            if lst > float(TMIN) and (w is None or lst > w[1]):
+                res.violation(key + f'/reuse-s5-{j}', case, f'c_reuse=True: latest stabilisation {lst} after window {w} lane {lane} {nl}'); nviol += 1
+            l = node.ins[0]
+            ini, times, term, ovl = wsim.decode(simr.c, int(simr.c_locs[l.index]), int(simr.c_caps[l.index]), lane)
+            if times and (w is None or min(times) < w[0] or max(times) > w[1]):
+                res.violation(key + f'/reuse-line{l.index}-window', case, f'c_reuse=True: line {l.index} lane {lane}: times {times} outside static window {w} {nl}'); nviol += 1
+            if uniform and any(t2 <= t1 for t1, t2 in zip(times, times[1:])):
+                res.violation(key + f'/reuse-line{l.index}-monotonic', case, f'c_reuse=True: line {l.index} lane {lane}: times {times} not strictly increasing {nl}'); nviol += 1
+        if nviol > 5: break
+    res.count('w2_reuse_runs')
     c0 = np.array(sim.c, dtype=np.float64)
     finite = np.abs(c0) < 2.0 ** 100
     ntrans = int(finite.sum())
@@ -225,7 +248,7 @@ def replay(case):
 
 
 def finish(agg, tier):
-    need = ['w1_overflows', 'w1_monotonic_checked', 'w2_monotonic_checked', 'w2_cases']
+    need = ['w1_overflows', 'w1_monotonic_checked', 'w2_monotonic_checked', 'w2_cases', 'w2_reuse_runs']
     missing = [k for k in need if not agg.counters.get(k)]
     if missing: raise common.HarnessError(f'vacuity guard: {missing} zero')
     return {}
